@@ -78,7 +78,11 @@ def leaf_writes(leaf):
     return out
 
 
-def role_fields(ctx, crate, rid="ROLE"):
+FMT_ROLES = ("ignore_case", "verbose", "colour", "no_start_anchor", "no_end_anchor", "capture")
+CLASS_ROLES = ("class:\\d", "class:\\D", "class:\\s", "class:\\S", "class:\\w", "class:\\W")
+
+
+def role_fields(ctx, crate, rid="ROLE", want=None):
     """role -> RegExpConfig field name, derived from the public setters named in spec/api.json
     (so rules never hard-code a field name).  A setter must write constant `true` (or its
     parameter, for the thresholds / surrogate flag) to exactly the fields its documented
@@ -87,41 +91,47 @@ def role_fields(ctx, crate, rid="ROLE"):
     eff = setter_effects(crate)
     roles = {}
     for setter, s in api["setters"].items():
+        mine = set(s["roles"]) | ({s["param"]} if s.get("param") else set())
+        report = want is None or bool(mine & set(want))
         e = eff.get(setter)
         if e is None:
             if s.get("cli_only"):
                 continue
-            ctx.anchor_lost(rid, "public setter RegExpBuilder::%s" % setter)
+            if report:
+                ctx.anchor_lost(rid, "public setter RegExpBuilder::%s" % setter)
             continue
         rets = [l for l in e["leaves"] if l.kind == "return"]
         if not rets:
-            ctx.undecided(rid, BUILDER + "::" + setter, "no returning path found")
+            if report:
+                ctx.undecided(rid, BUILDER + "::" + setter, "no returning path found")
             continue
         # use the returning leaf (threshold setters have one panic leaf and one return leaf)
         writes = leaf_writes(rets[-1])
         const_true = [w for w in writes if isinstance(w[1], ccp.Const) and w[1].v is True]
         param = [w for w in writes if isinstance(w[1], ccp.Sym)]
-        want = list(s["roles"])
-        if s.get("param") and s["param"] not in want:
+        want_roles = list(s["roles"])
+        if s.get("param") and s["param"] not in want_roles:
             want_param = s["param"]
         else:
             want_param = s.get("param")
-        n_const_roles = len([r for r in want if r != want_param])
+        n_const_roles = len([r for r in want_roles if r != want_param])
         if len(const_true) != n_const_roles or (want_param and len(param) != 1) or (not want_param and param):
-            ctx.violation(rid, (BUILDER + "::" + setter, "writes"),
+            if report:
+              ctx.violation(rid, (BUILDER + "::" + setter, "writes"),
                           "setter writes %s but its documented roles are %s" % (
-                              [(".".join(w[0] or ("?",)), ccp.show(w[1])) for w in writes], want + ([want_param] if want_param else [])),
+                              [(".".join(w[0] or ("?",)), ccp.show(w[1])) for w in writes], want_roles + ([want_param] if want_param else [])),
                           e["body"].loc())
             continue
         ci = 0
-        for r in want:
+        for r in want_roles:
             if r == want_param:
                 continue
             f = const_true[ci][0][-1]
             ci += 1
             if r in roles and roles[r] != f:
                 # e.g. without_anchors must write the same fields as the two single setters
-                ctx.violation(rid, (BUILDER + "::" + setter, r),
+                if report:
+                  ctx.violation(rid, (BUILDER + "::" + setter, r),
                               "role %s is field %s per another setter but %s here" % (r, roles[r], f), e["body"].loc())
             roles.setdefault(r, f)
         if want_param:
